@@ -402,6 +402,39 @@ let cmd_loadseq (args : string list) : string =
     Stdlib.String.concat " " (Stdlib.List.filter_map (fun x -> x) outs)
   | _ -> "BADCASE"
 
+
+(* ---- py <D|M;tpes;ids> <hdrhex> <bodyhex> <times> : the Python binding ---- *)
+let show_py (v : Py.pyval option) : string =
+  match v with
+  | None -> "~"
+  | Some (Py.PyInt n) -> "i" ^ hex_of_n n
+  | Some (Py.PyStr s) -> "s" ^ hex_of_bytes s
+  | Some (Py.PyFloat le) -> "f" ^ real_hex le
+
+let cmd_py (args : string list) : string =
+  match args with
+  | [sigs; _hdr; body; times] ->
+    let (tpes, lookup) = parse_sigs sigs in
+    let enc_tpes = Stdlib.List.map (fun t -> match t with None -> WaveMem.EncString | Some t -> t) tpes in
+    let (blocks, tt) = get (VcdBody.read_values_st parse_f64 lz_compress !cap !debug enc_tpes lookup (bytes_of_hex body)) in
+    let n_tt = Stdlib.List.length tt in
+    let times = Stdlib.List.map n_of_hex (split_on ',' times) in
+    let ttobs = Stdlib.List.init (2 * n_tt + 4) (fun k ->
+      let i = k - n_tt - 2 in
+      match Py.time_table_getitem tt (z_of_int i) with None -> "~" | Some t -> "i" ^ hex_of_n t) in
+    let sigsobs = Stdlib.List.mapi (fun i tpe ->
+      match tpe with
+      | None -> None
+      | Some tpe ->
+        let s = get (WaveMem.load_signal lz_decompress blocks (nat_of_int i) tpe) in
+        let ch = get (Py.all_changes tt s) in
+        let chs = Stdlib.String.concat "," (Stdlib.List.map (fun (t, v) -> hex_of_n t ^ ":" ^ show_py (Some v)) ch) in
+        let at_idx = Stdlib.String.concat "," (Stdlib.List.init (n_tt + 2) (fun k -> show_py (get (Py.value_at_idx s (n_of_int k))))) in
+        let at_time = Stdlib.String.concat "," (Stdlib.List.map (fun t -> show_py (get (Py.value_at_time tt s t))) times) in
+        Some (Printf.sprintf "v%d=ch[%s]idx[%s]time[%s]" i chs at_idx at_time)) tpes in
+    Stdlib.String.concat " " (("tt=" ^ Stdlib.String.concat "," ttobs) :: Stdlib.List.filter_map (fun x -> x) sigsobs)
+  | _ -> "BADCASE"
+
 let dispatch (cmd : string) (args : string list) : string =
   match cmd with
   | "offsets" -> cmd_offsets args
@@ -413,6 +446,7 @@ let dispatch (cmd : string) (args : string list) : string =
   | "detect" -> cmd_detect args
   | "slice" -> cmd_slice args
   | "loadseq" -> cmd_loadseq args
+  | "py" -> cmd_py args
   | "vcd" -> cmd_vcd args
   | _ -> "UNSUPPORTED"
 
